@@ -19,6 +19,7 @@ type mixedParams struct {
 	ReadsInTx  bool // allow read ops inside write transactions
 	Fill       bool
 	NoSPop     bool // SPop may return any member, so differential checks do not generate it
+	MultiKV    int  // > 1: some transactions consist of 2..MultiKV key/value writes spread over the buckets
 }
 
 func genMixedOp(structs bool, buckets, kvKeys, sKeys []string, fill bool) func(t *rapid.T) Op {
@@ -48,7 +49,8 @@ func genMixedCase(p mixedParams) *rapid.Generator[Case] {
 		nb := rapid.IntRange(p.MinB, p.MaxB).Draw(t, "nb")
 		perm := rapid.Permutation(p.Buckets).Draw(t, "bperm")
 		buckets := perm[:nb]
-		kvKeys := genKeys(keyAlphabet, 2, 6, 3).Draw(t, "kvkeys")
+		shape := genKeyShape(t, keyAlphabet, 2, 6, 3, p.MaxOps, false)
+		kvKeys := shape.Keys
 		sKeys := genKeys(keyAlphabetNoSep, 1, 3, 2).Draw(t, "skeys")
 		structs := p.Structs && c.Cfg.Mode == 0
 		gop := genMixedOp(structs, buckets, kvKeys, sKeys, p.Fill)
@@ -60,8 +62,15 @@ func genMixedCase(p mixedParams) *rapid.Generator[Case] {
 				c.Steps = append(c.Steps, Step{K: "reopen"})
 			case r < p.ReopenPct+p.MergePct:
 				c.Steps = append(c.Steps, Step{K: "merge"})
+			case p.MultiKV > 1 && rapid.IntRange(0, 2).Draw(t, "multikv") == 1:
+				// one transaction writing key/value pairs of several buckets (bucket+key concatenations may coincide)
+				st := Step{K: "tx", Managed: rapid.Bool().Draw(t, "managed")}
+				for j, nops := 0, rapid.IntRange(2, p.MultiKV).Draw(t, "nops"); j < nops; j++ {
+					st.Ops = append(st.Ops, genKVWrite(buckets, kvKeys, false).Draw(t, "kvop"))
+				}
+				c.Steps = append(c.Steps, st)
 			default:
-				nops := rapid.IntRange(1, p.MaxOps).Draw(t, "nops")
+				nops := rapid.IntRange(1, shape.MaxOps).Draw(t, "nops")
 				st := Step{K: "tx", Managed: rapid.Bool().Draw(t, "managed")}
 				for j := 0; j < nops; j++ {
 					op := gop(t)
